@@ -93,6 +93,9 @@ fn main() {
                 let _ = k.wait();
             }
         }
+        "exp" => {
+            props::exp::run();
+        }
         "smoke" => {
             props::smoke::run();
         }
